@@ -23,6 +23,7 @@ from ..linear import parse_expr
 from ..linear import single_assignments
 from ..model import ancestors
 from ..model import own_nodes
+INF_ = float('inf')
 from ..zone import Zone
 from ..zone import compare_forms
 from ..zone import lin
@@ -619,6 +620,195 @@ def rule_window_invariants(model):
     return r
 
 
+class _OrphanDomain(_WindowDomain):
+    """_WindowDomain plus, for every integer variable x, a ghost variable
+    `x+o` standing for x + orphan (a zone cannot relate three variables;
+    the look-ahead probes do: sequence[end + orphan - 1]).  Forms that
+    contain orphan with coefficient +1 next to some x with coefficient +1
+    are rewritten to the ghost before they reach the zone."""
+
+    def __init__(self, fi, seqname, names, orphan, size):
+        super().__init__(fi, seqname, names)
+        self.o = orphan
+        self.size = size
+
+    def ghost(self, x):
+        return f'{x}+o'
+
+    def rw(self, f):
+        if f is None or f.get(self.o, 0) != 1:
+            return f
+        for x in sorted(f):
+            if x not in ('', self.o, 'L') and f[x] == 1 and \
+                    x in self.names:
+                g = dict(f)
+                del g[x]
+                del g[self.o]
+                g[self.ghost(x)] = 1
+                return g
+        if f.get('L', 0) == 1:
+            return f
+        return f
+
+    def branch(self, test, st):
+        forms = compare_forms(test, self.rename)
+        if forms is None:
+            return [(True, st), (False, st)]
+        res = []
+        for b, fs in ((True, forms[0]), (False, forms[1])):
+            s2 = st
+            if fs is not None:
+                for f in fs:
+                    s2 = s2.assume_le0(self.rw(f))
+            s2 = s2.copy()
+            s2.decisions = getattr(st, 'decisions', ()) + (
+                (norm(test), b),)
+            s2.flags = getattr(st, 'flags', frozenset())
+            if not s2.bottom:
+                res.append((b, s2))
+        return res
+
+    def simple(self, stmt, st):
+        idx = self._probe(stmt)
+        if idx is not None:
+            f = self.rw(lin(idx, self.rename))
+            if f is None:
+                return super().simple(stmt, st)
+            ok = dict(f)
+            ok['L'] = ok.get('L', 0) - 1
+            ok[''] = ok.get('', 0) + 1
+            good = st.assume_le0(ok)
+            bad = st.copy()
+            for o_ in (good, bad):
+                o_.flags = getattr(st, 'flags', frozenset())
+            return self._alive([Outcome(NORMAL, good),
+                                Outcome(RAISE, bad, 'IndexError', stmt)])
+        return [Outcome(NORMAL, self.effects(stmt, st))]
+
+    def effects(self, stmt, st):
+        flags = getattr(st, 'flags', frozenset())
+        ns = super().effects(stmt, st)
+        if isinstance(stmt, ast.Assign) and len(stmt.targets) == 1 and \
+                isinstance(stmt.targets[0], ast.Name):
+            x = stmt.targets[0].id
+            f = lin(stmt.value, self.rename)
+            if x in self.names and x != self.o:
+                g = None
+                if f is not None:
+                    g = dict(f)
+                    g[self.o] = g.get(self.o, 0) + 1
+                    g = self.rw({k: c for k, c in g.items()
+                                 if c != 0 or k == ''})
+                hv = ns.havoc
+                # the ghost of x is assigned x's new value + orphan,
+                # evaluated in the state before the assignment
+                tmp = st.assign(self.ghost(x), g)
+                ns2 = ns.copy()
+                gi = ns2.ix(self.ghost(x))
+                for j in range(len(ns2.vars)):
+                    if j != gi:
+                        ns2.m[gi][j] = tmp.m[gi][j] if \
+                            ns2.vars[j] != x else INF_
+                        ns2.m[j][gi] = tmp.m[j][gi] if \
+                            ns2.vars[j] != x else INF_
+                # x <= x+o always (orphan >= 0)
+                ns2.m[ns2.ix(x)][gi] = min(ns2.m[ns2.ix(x)][gi], 0)
+                ns2.close()
+                ns2.havoc = hv
+                ns = ns2
+                if f is not None and f.get(self.size, 0) != 0:
+                    flags = flags | {f'{x}:sized'}
+                else:
+                    flags = flags - {f'{x}:sized'}
+        ns = ns.copy() if ns is st else ns
+        ns.flags = flags
+        ns.decisions = getattr(st, 'decisions', ())
+        return ns
+
+
+def rule_orphan(model):
+    r = RuleResult('C11.R6', 'orphan rule of the window computation: a '
+                   'window whose end is computed from the batch size either '
+                   'ends at the last element or leaves at least `orphan` '
+                   'elements after it, and one whose start is computed from '
+                   'the size either starts at the first element or leaves '
+                   'at least `orphan` elements before it (zone abstract '
+                   'interpretation with ghost variables x + orphan)')
+    fi = model.func('DT_InSV', 'opt')
+    ps = fi.params()
+    if len(ps) != 5:
+        raise AnalysisError('opt: unexpected signature')
+    seq, orphan, size = ps[4], ps[3], ps[2]
+    names = set(ps[:4])
+    for n in own_nodes(fi.node):
+        if isinstance(n, ast.Name) and isinstance(n.ctx, ast.Store):
+            names.add(n.id)
+    names.discard(seq)
+    ghosts = [f'{x}+o' for x in sorted(names) if x != orphan]
+    z = Zone([''] + sorted(names) + ghosts + ['L'])
+    z.add('', 'L', -1)
+    z.add('', orphan, 0)
+    for x in sorted(names):
+        if x != orphan:
+            z.add(x, f'{x}+o', 0)            # x <= x + orphan
+    z.decisions = ()
+    z.flags = frozenset()
+    dom = _OrphanDomain(fi, seq, names, orphan, size)
+    it = Interp(dom, max_states=400000)
+    it.run(fi.node, z)
+    if it.overflow:
+        raise AnalysisError('C11.R6: state budget exceeded')
+    n_app = 0
+    seen = set()
+    for node, st in dom.returns:
+        if st.bottom:
+            continue
+        v = node.value
+        if not (isinstance(v, ast.Tuple) and len(v.elts) == 3 and all(
+                isinstance(e, ast.Name) for e in v.elts[:2])):
+            raise AnalysisError('opt: return value is not (start, end, '
+                                'size) of plain names')
+        sv, ev = v.elts[0].id, v.elts[1].id
+        flags = getattr(st, 'flags', frozenset())
+        dec = getattr(st, 'decisions', ())
+        path = ' & '.join((t if b else f'not ({t})') for t, b in dec)
+        if (path, st.key(), flags) in seen:
+            continue
+        seen.add((path, st.key(), flags))
+        if f'{ev}:sized' in flags:
+            n_app += 1
+            at_end = st.entails_le0({'L': 1, ev: -1})        # L <= end
+            room = st.entails_le0({f'{ev}+o': 1, 'L': -1})    # end+o <= L
+            r.instance(fi.where, f'end side: {path}'[:150],
+                       'ends at L' if at_end else (
+                           'leaves >= orphan' if room
+                           else 'NOT ESTABLISHED'))
+            if not (at_end or room) and not st.havoc:
+                r.finding(fi.where, 'end == length or length - end >= '
+                          'orphan', 'a window computed from the batch size '
+                          f'can end before the last element and leave '
+                          f'fewer than orphan elements, on path [{path}]',
+                          node=node, ctx=fi, path=st.trace)
+        if f'{sv}:sized' in flags:
+            n_app += 1
+            at_start = st.entails_le0({sv: 1, '': -1})       # start <= 1
+            room = st.entails_le0({orphan: 1, sv: -1, '': 1})
+            r.instance(fi.where, f'start side: {path}'[:150],
+                       'starts at 1' if at_start else (
+                           'leaves >= orphan' if room
+                           else 'NOT ESTABLISHED'))
+            if not (at_start or room) and not st.havoc:
+                r.finding(fi.where, 'start == 1 or start - 1 >= orphan',
+                          'a window whose start is computed from the batch '
+                          'size can leave fewer than orphan elements '
+                          f'before it, on path [{path}]', node=node,
+                          ctx=fi, path=st.trace)
+    if n_app < 3:
+        raise AnalysisError(f'C11.R6: only {n_app} sized window ends found')
+    r.floor = 3
+    return r
+
+
 def _inl(rule):
     """Run a rule on the view in which helpers that are new w.r.t. the
     reference tree are inlined at their call sites (normalise.N2)."""
@@ -628,12 +818,13 @@ def _inl(rule):
     return run
 
 
-RULES = [_inl(rule_windows), _inl(rule_keys), _inl(rule_params), _inl(rule_opt_forms), _inl(rule_window_invariants)]
+RULES = [_inl(rule_windows), _inl(rule_keys), _inl(rule_params), _inl(rule_opt_forms), _inl(rule_window_invariants),
+         _inl(rule_orphan)]
 EXPLANATION = (
     'Linear normal forms of the arguments of every opt() call and of every '
     'published batch key, compared with the documented formula (sites must '
     'agree); parameter-read and flag-guard queries.')
-ASSUMPTIONS = ['the window arithmetic inside opt() over the 5-dimensional '
+ASSUMPTIONS = ['of the window arithmetic inside opt() only the range invariants (R5) and the orphan rule (R6) are decided; the tiling of consecutive windows (overlap) over the 5-dimensional '
                'parameter space is NOT decided (needs integer reasoning '
                'with sequence probing: a solver-family problem)']
 TRUSTED = ['python ast']
